@@ -1135,7 +1135,7 @@ def regenerate(repo=None, which="Intg", tag=""):
     return True, "", d
 
 
-def check_tie(repo=None, which="Intg", timeout=600, tag=""):
+def check_tie(repo=None, which="Intg", timeout=900, tag="", chk=False):
     """regenerate, compile the generated file and the tie lemmas against it.
     returns dict(ok, stage, log, lemmas, assumptions, generated_sha)"""
     import subprocess, re, shutil
@@ -1169,6 +1169,14 @@ def check_tie(repo=None, which="Intg", timeout=600, tag=""):
     printed = re.findall(r"Print Assumptions (\w+)\.", text)
     blocks = [b.strip() for b in re.split(r"(?m)^(?=Closed under the global context|Axioms:)", r.stdout) if b.strip()]
     res["assumptions"] = {n: ("closed" if b.startswith("Closed") else re.sub(r"\s+", " ", b)[:300]) for n, b in zip(printed, blocks)}
+    if chk:
+        # thorough tier: the independent checker re-checks the compiled tie (and everything it depends on)
+        rc = subprocess.run(["coqchk", "-silent", "-o", "-Q", COQ, "RV", "-Q", os.path.join(d, "Gen"), "RV.Gen", "-Q", os.path.join(d, "Tie"), "RV.Tie",
+                             "RV.Tie." + tie_name[:-2]], capture_output=True, text=True, timeout=1800, cwd=d)
+        res["coqchk"] = rc.returncode == 0
+        if rc.returncode:
+            res.update(stage="coqchk rejects the tie", log=(rc.stdout + rc.stderr)[-1500:])
+            return res
     res.update(ok=True, stage="checked", log="")
     return res
 
